@@ -5,6 +5,11 @@ THEOREMS = {
         "modules": ["Abnf.Theorems.C01"],
         "theorems": ["Abnf.C01.reported_end_is_derivable"],
     },
+    "C18": {
+        "modules": ["Abnf.Theorems.C18"],
+        "theorems": ["Abnf.C18.dispatch_present", "Abnf.C18.dispatch_absent", "Abnf.C18.leaf_dispatches_on_literal",
+                     "Abnf.C18.key_case_insensitive", "Abnf.C18.key_is_lowercase_underscore", "Abnf.C18.eq_iff_structural"],
+    },
     "C16": {
         "modules": ["Abnf.Theorems.C16"],
         "theorems": ["Abnf.C16.size_le_limit", "Abnf.C16.lookup_most_recent_or_miss", "Abnf.C16.lookup_never_other_key",
